@@ -4,7 +4,7 @@
    Permutation of the list, and distinct keys (NoDup) is what being a map means. *)
 From Coq Require Import Permutation Sorted.
 From Verif Require Import Base.Str Base.Outcome Model.Ast Model.Printer
-  Proofs.SortFacts Proofs.PrinterOrder Proofs.PrinterCanonical.
+  Proofs.SortFacts Proofs.PrinterOrder Proofs.PrinterCanonical Proofs.PrinterComments.
 
 (* 1. sortByModule is a strict total order on items with distinct names: lexicographic on
       (unattributed first, module, file, name) *)
@@ -74,3 +74,9 @@ Proof.
   - repeat constructor; simpl; intuition discriminate.
   - repeat constructor; simpl; intuition discriminate.
 Qed.
+
+(* 7. asking for source information never changes the verdict: for every model (any protobuf shape) the two
+      calls either both return a text or both fail with the same error *)
+Theorem C14_comments_do_not_change_the_verdict : forall m,
+  same_verdict (fst (print_model true m)) (fst (print_model false m)).
+Proof. exact print_model_verdict. Qed.
